@@ -775,6 +775,9 @@ def _convert(eqn, ins, ctx):
             for a in x.reshape(-1):
                 ctx.ranges.append((a, int(info.min), int(info.max), f'narrow to {np.dtype(dst).name}'))
         return [x]
+    if np.issubdtype(src, np.complexfloating) and not np.issubdtype(dst, np.complexfloating):
+        # complex -> real conversion keeps the real part only (XLA semantics of convert_element_type)
+        return [_map(lambda v: _real_part(v) if isinstance(v, Cyc) else v, x)]
     # float/complex widening or narrowing: identity in real arithmetic (rounding is outside the claim)
     return [x]
 
